@@ -88,6 +88,10 @@ def regenerate():
                  300, env=IMPL_ENV)
     if rc != 0:
         raise BuildError("extract_io_tables failed:\n" + out)
+    # the selection code, translated from its source text (fail-closed Python-ast translator)
+    rc, out = sh([PY, os.path.join(VERIF, "harness", "translate_select.py"), os.path.join(COQ, "Gen", "SelectGen.v")], 60, env=IMPL_ENV)
+    if rc != 0:
+        raise BuildError("translate_select failed (the selection code left the translated fragment):\n" + out)
 
 
 def make_target(target, timeout=1500):
